@@ -43,10 +43,34 @@ def obj_map(T, d, m, para):
     return cells, M
 
 
+def object_mse_helper(chk):
+    """calc_mse_qoperations: mean (and sample standard deviation) of |x_i - y_i|^2 over PAIRS of objects - lists whose reference
+    objects differ from pair to pair, all four object types."""
+    from quara.data_analysis import data_analysis as da
+    from harness import qobjs
+    c = qobjs.csys("qubit", 1)
+    lists = {"state": (["x0", "y0", "z1", "a"], ["z0", "x1", "y1", "y0"]), "povm": (["x", "y", "z"], ["z", "x", "y"]),
+             "gate": (["x90", "hadamard", "y90", "identity"], ["identity", "x90", "hadamard", "z90"]), "mprocess": (["x-type1", "z-type1"], ["z-type1", "y-type1"])}
+    for kind, (xn, yn) in lists.items():
+        xs = [qobjs.gen(kind, n_, c) for n_ in xn]
+        ys = [qobjs.gen(kind, n_, c) for n_ in yn]
+        pts = [float(np.sum((np.asarray(x.to_stacked_vector()) - np.asarray(y.to_stacked_vector())) ** 2)) for x, y in zip(xs, ys)]
+        chk.count(1, ("object_mse", kind))
+        try:
+            mse, std = da.calc_mse_qoperations(xs, ys, mode="qoperation", with_std=True)
+            mse2 = da.calc_mse_qoperations(xs, ys, mode="qoperation", with_std=False)
+            if abs(mse - np.mean(pts)) > 1e-12 or abs(std - np.std(pts, ddof=1)) > 1e-12 or abs(mse2 - np.mean(pts)) > 1e-12:
+                chk.violation("helper:calc_mse_qoperations:%s" % kind, "calc_mse_qoperations=%r / %r, mean and sample standard deviation of the pairwise squared distances %r / %r" % (
+                    mse, std, float(np.mean(pts)), float(np.std(pts, ddof=1))), dict(kind=kind))
+        except Exception as e:
+            chk.violation("helper:calc_mse_qoperations:exception:%s" % kind, "%r" % e, dict(kind=kind))
+
+
 def helper_checks(chk, rng):
     """Sample statistics helpers compute what they say (enumerated integer samples)."""
     from quara.utils import matrix_util as mu
     from quara.data_analysis import data_analysis as da
+    object_mse_helper(chk)
     n = 0
     for dims in ((1, 2), (2, 2), (3, 2), (2, 3)):
         k, L = dims
